@@ -12,14 +12,16 @@
 (* invariants on each and the Emit invariant prints the case with the         *)
 (* expected result computed by the specification.                             *)
 (******************************************************************************)
-EXTENDS RoutingPlace, TLC, Json
+EXTENDS RoutingPlace, RoutingPlaceExtra, TLC, Json
 
-CONSTANTS Family,     \* "range" | "date" | "mycat"
+CONSTANTS Types,      \* the rule types to enumerate, e.g. {"range"}, {"date_year", "date_month", "date_day"}, {"mycat_murmur"}
           Wide,       \* BOOLEAN: thorough-tier universe
-          TZs         \* time zones (seconds east of UTC) of the proxy, calendar rules only
+          TZs         \* time zones of the proxy (calendar rules only): seconds east of UTC PLUS 86400
+                      \* (a cfg file cannot hold negative numbers)
 
-VARIABLES rule, tz, item
-vars == <<rule, tz, item>>
+VARIABLES rule, tz, item,
+          memo       \* determined by rule: its layout and (mycat_murmur) its hash ring, computed once per rule
+vars == <<rule, tz, item, memo>>
 
 -----------------------------------------------------------------------------
 IntKey(v) == [kind |-> "int", neg |-> v < 0, digits |-> DecOf(IF v < 0 THEN -v ELSE v)]
@@ -62,6 +64,7 @@ RangeKeys(r) == {IntKey(v) : v \in RangeVals(r)} \cup Edge64
                       StrKey(<<43>> \o IntText(IntKey(r.limit))),             \* "+<limit>"
                       StrKey(<<45, 48>>)}                                     \* "-0"
                 \cup {StrKey(s) : s \in BadNumbers}
+                \cup {BigKey(p[1], p[2]) : p \in ExtraInts}
 
 -----------------------------------------------------------------------------
 (* CALENDAR *)
@@ -156,7 +159,8 @@ DateStrings(r) ==
         c == CivilFromDays(PeriodStart(r.type, p))
     IN Prefixes(DateTimeText(c.y, c.m, c.d, 43261)) \cup Prefixes(DateTimeText(2016, 12, 31, 86399)) \cup BadDates
 
-DateItems(r) == BoundaryInstants(r) \cup FixedInstants \cup {[i |-> "key", key |-> StrKey(s)] : s \in DateStrings(r)}
+DateItems(r) == BoundaryInstants(r) \cup FixedInstants \cup {Inst(p[1], p[2]) : p \in ExtraInstants}
+                \cup {[i |-> "key", key |-> StrKey(s)] : s \in DateStrings(r) \cup ExtraStrings}
 
 -----------------------------------------------------------------------------
 (* MYCAT *)
@@ -192,7 +196,8 @@ MycatStringRules == {WithHs(WithPart(Base("mycat_string", Sum(p[1])), p), h) : p
 
 MurmurParams == (IF Wide THEN {0, 1, -1, 2147483647} \X {1, 2, 4} \X {1, 2, 3, 4, 7, 16}
                          ELSE {0, 1, -1} \X {1, 2, 4} \X {2, 3, 16})
-                \cup {<<0, 160, 2>>, <<1, 160, 4>>}          \* Mycat's default bucket count
+                \cup (IF Wide THEN {<<0, 160, 2>>, <<1, 160, 4>>} ELSE {<<0, 160, 2>>})   \* Mycat's default bucket count
+                \cup ExtraMurmur
 WithMur(b, s, v) == [type |-> b.type, locations |-> b.locations, slices |-> b.slices, databases |-> b.databases,
                      seed |-> s, vbt |-> v]
 MycatMurmurRules == {WithMur(Base("mycat_murmur", p[3]), p[1], p[2]) : p \in MurmurParams}
@@ -213,19 +218,24 @@ MycatStrings ==
       <<65535>>, <<97, 65535, 98>>, <<55295, 57344>>,                        \* BMP edges around the surrogate range
       <<48>>, <<49, 55>>, <<45, 49, 55>>, <<48, 48, 55>>, <<45, 53, 48>>, <<32, 53>>, <<49, 50, 97>> }
 MycatKeys(r) == {IntKey(v) : v \in MycatIntVals(TableCount(r))} \cup Edge64
-                \cup {StrKey(s) : s \in MycatStrings}
+                \cup {StrKey(s) : s \in MycatStrings \cup ExtraStrings}
+                \cup {BigKey(p[1], p[2]) : p \in ExtraInts}
                 \cup (IF r.type \in {"mycat_mod", "mycat_long"} THEN {StrOfInt(v) : v \in {0, 1, -1, 1023, 1024, -1025}} ELSE {})
 
 -----------------------------------------------------------------------------
-Rules == IF Family = "range" THEN RangeRules ELSE IF Family = "date" THEN DateRules ELSE MycatRules
+AllRules == RangeRules \cup DateRules \cup MycatRules
+Rules == {r \in AllRules : r.type \in Types}
+FamilyOf(r) == IF r.type = "range" THEN "range" ELSE IF IsDateRule(r) THEN "date" ELSE "mycat"
 Layout == [i |-> "layout"]
 Items(r) == {Layout} \cup
-            (IF Family = "range" THEN {[i |-> "key", key |-> k] : k \in RangeKeys(r)}
-             ELSE IF Family = "date" THEN DateItems(r)
+            (IF FamilyOf(r) = "range" THEN {[i |-> "key", key |-> k] : k \in RangeKeys(r)}
+             ELSE IF FamilyOf(r) = "date" THEN DateItems(r)
              ELSE {[i |-> "key", key |-> k] : k \in MycatKeys(r)})
-Zones == IF Family = "date" THEN TZs ELSE {0}
+ZonesOf(r) == IF IsDateRule(r) THEN {z - 86400 : z \in TZs} ELSE {0}
 
-Init == rule \in Rules /\ tz \in Zones /\ item \in Items(rule)
+MemoOf(r) == [st |-> SubTables(r), ts |-> TableToSlice(r),
+               ring |-> IF r.type = "mycat_murmur" THEN Ring(r.seed, r.vbt, TableCount(r)) ELSE {}]
+Init == rule \in Rules /\ memo = MemoOf(rule) /\ tz \in ZonesOf(rule) /\ item \in Items(rule)
 Next == UNCHANGED vars
 Spec == Init /\ [][Next]_vars
 
@@ -236,14 +246,10 @@ ASSUME \A r \in RangeRules : TableCount(r) * r.limit + r.limit < 1000000000
 KeysOfItem == IF item.i = "instant" THEN SpellingsOf(item, tz)
               ELSE IF item.i = "key" THEN <<item.key>> ELSE <<>>
 
-(* murmur rings are built once per rule (constant-level memo), not once per case *)
-MurmurRingOf == IF Family = "mycat" THEN TLCEval([r \in MycatMurmurRules |-> Ring(r.seed, r.vbt, TableCount(r))]) ELSE <<>>
-(* layouts likewise (day ranges are filtered out of yyyymmdd intervals) *)
-LayoutOf == TLCEval([r \in Rules |-> [st |-> SubTables(r), ts |-> TableToSlice(r)]])
-SliceIdx(idx) == LET st == LayoutOf[rule].st  ts == LayoutOf[rule].ts
+SliceIdx(idx) == LET st == memo.st  ts == memo.ts
                      hit == {i \in 1..Len(st) : st[i] = idx}
                  IN IF hit = {} THEN -1 ELSE ts[CHOOSE i \in hit : TRUE]
-PlaceG(k) == IF rule.type = "mycat_murmur" THEN MycatMurmurPlaceWith(MurmurRingOf[rule], rule, k)
+PlaceG(k) == IF rule.type = "mycat_murmur" THEN MycatMurmurPlaceWith(memo.ring, rule, k)
              ELSE Place(rule, k, tz)
 
 ClassOf(k) == IF IsDateRule(rule) /\ k.kind = "str"
@@ -282,7 +288,7 @@ RangePartition ==
 (* the layout: every listed table exactly once, ascending for calendar rules, one slice per table *)
 LayoutSane ==
     item.i = "layout" =>
-        LET st == LayoutOf[rule].st  ts == LayoutOf[rule].ts
+        LET st == memo.st  ts == memo.ts
         IN /\ Len(st) = Len(ts) /\ Len(st) > 0
            /\ \A i, j \in 1..Len(st) : i < j => st[i] # st[j] /\ ts[i] <= ts[j]
            /\ \A i \in 1..Len(ts) : ts[i] \in 0..(Len(rule.slices) - 1)
@@ -306,7 +312,7 @@ HashCarryOK ==
                StringHash1024(u, 0, Len(u)) = FullHash(u, 0, Len(u), 0) % 1024
 
 (* ---- emission ---- *)
-LayoutRec == [subtables |-> LayoutOf[rule].st, t2s |-> LayoutOf[rule].ts,
+LayoutRec == [subtables |-> memo.st, t2s |-> memo.ts,
               dbs |-> IF "databases" \in DOMAIN rule THEN RealDatabases(rule.databases) ELSE <<>>]
 Emit == PrintT(<<"CASE", ToJson([rule |-> rule, tz |-> tz, item |-> item.i,
                                  cases |-> [i \in 1..Len(KeysOfItem) |-> CaseOf(KeysOfItem[i])],
